@@ -350,6 +350,9 @@ def _check_bind(case) -> Outcome:
     if rejected:
         out.status = "rejected"
         out.labels.append(f"bind:valid_rejected:{obs.exc_type}")
+        if path == "ast" and any(p[1] == "ko" and not p[2] for p in sig):
+            # notes/C10.md section 6: internal AttributeError in _ClassifyNames; a rejection, hence allowed by C10
+            out.labels.append("bind:valid_rejected:local_required_kwonly")
         return out
     out.labels.append("bind:valid_accepted")
     out.nontrivial = True
